@@ -7,7 +7,6 @@ import (
 	"io"
 	"slices"
 	"strconv"
-	"strings"
 
 	"github.com/renbou/grpcbridge/bridgedesc"
 	"golang.org/x/exp/constraints"
@@ -301,9 +300,7 @@ func (d *jsonDecoder) unmarshalMap(protomap protoreflect.Map, fd protoreflect.Fi
 	}()
 
 	for key, raw := range marshaled {
-		d.dec = json.NewDecoder(strings.NewReader(strconv.Quote(key)))
-
-		keyValue, err := d.unmarshalScalar(fd.MapKey())
+		keyValue, err := unmarshalMapKey(fd.MapKey(), key)
 		if err != nil {
 			return fmt.Errorf("invalid map key value: %w", err)
 		}
@@ -329,11 +326,45 @@ func (d *jsonDecoder) unmarshalMap(protomap protoreflect.Map, fd protoreflect.Fi
 
 		// An invalid value without an error means that the entry should be skipped (unknown enum name with DiscardUnknown).
 		if mappedValue.IsValid() {
-			protomap.Set(protoreflect.MapKey(keyValue), mappedValue)
+			protomap.Set(keyValue, mappedValue)
 		}
 	}
 
 	return nil
+}
+
+// unmarshalMapKey converts the name of a JSON object member to a map key of the needed kind.
+// JSON object names are always strings, so they are parsed directly instead of being decoded as JSON values.
+func unmarshalMapKey(fd protoreflect.FieldDescriptor, key string) (protoreflect.MapKey, error) {
+	switch fd.Kind() {
+	case protoreflect.StringKind:
+		return protoreflect.ValueOfString(key).MapKey(), nil
+	case protoreflect.BoolKind:
+		switch key {
+		case "true":
+			return protoreflect.ValueOfBool(true).MapKey(), nil
+		case "false":
+			return protoreflect.ValueOfBool(false).MapKey(), nil
+		}
+	case protoreflect.Int32Kind, protoreflect.Sint32Kind, protoreflect.Sfixed32Kind:
+		if n, err := strconv.ParseInt(key, 10, 32); err == nil {
+			return protoreflect.ValueOfInt32(int32(n)).MapKey(), nil
+		}
+	case protoreflect.Int64Kind, protoreflect.Sint64Kind, protoreflect.Sfixed64Kind:
+		if n, err := strconv.ParseInt(key, 10, 64); err == nil {
+			return protoreflect.ValueOfInt64(n).MapKey(), nil
+		}
+	case protoreflect.Uint32Kind, protoreflect.Fixed32Kind:
+		if n, err := strconv.ParseUint(key, 10, 32); err == nil {
+			return protoreflect.ValueOfUint32(uint32(n)).MapKey(), nil
+		}
+	case protoreflect.Uint64Kind, protoreflect.Fixed64Kind:
+		if n, err := strconv.ParseUint(key, 10, 64); err == nil {
+			return protoreflect.ValueOfUint64(n).MapKey(), nil
+		}
+	}
+
+	return protoreflect.MapKey{}, fmt.Errorf("invalid value for %v type: %q", fd.Kind(), key)
 }
 
 func (d *jsonDecoder) unmarshalSingular(msg protoreflect.Message, fd protoreflect.FieldDescriptor) error {
